@@ -80,7 +80,7 @@ def main():
             except subprocess.TimeoutExpired:
                 result["checks"][c] = {"rc": None, "verdict": "timeout"}
             result["ran"].append("PERSIM_VERIF_ROOT=<worktree> ./check %s --tier %s --no-evidence" % (c, a.tier))
-        out = os.path.join(VERIF, "seeded", "%s-%s" % (a.pid, a.x))
+        out = os.path.join(VERIF, "seeded", "%s-%s%s" % (a.pid, a.x, os.environ.get("PV_SEED_SUFFIX", "")))
         os.makedirs(out, exist_ok=True)
         shutil.copy(patch, os.path.join(out, "patch.diff"))
         shutil.copy(demo, os.path.join(out, "demo.py"))
